@@ -2,7 +2,7 @@ SPECIFICATION Spec
 CONSTANTS
   FileOwnerBeforeMode = TRUE
   SymlinkChownFollows = FALSE
-  SymlinkTimesFollow = TRUE
-  EmptinessSeesAllKinds = TRUE
+  SymlinkTimesFollow = FALSE
+  EmptinessSeesAllKinds = FALSE
 INVARIANTS Inv_MetadataExact Inv_OutsideUntouched Inv_RefusesNonEmpty Inv_RefusedUntouched Inv_NoHangWithoutOverwrite
 CHECK_DEADLOCK FALSE
